@@ -296,11 +296,200 @@ pub fn run(ctx: &Ctx, st: &mut Stats) {
     // random tier
     let n = ctx.tier.pick(400_000, 20_000_000);
     PAT.run_random(ctx, st, n, arb_case);
+    run_shell(ctx, st);
 }
 
 pub fn replay(driver: &str, case: &serde_json::Value) -> Result<(Outcome, Option<&'static str>), String> {
     match driver {
         "pattern" => PAT.replay_known(case),
+        "shell" => SHELL.replay_known(case),
         _ => Err(format!("unknown driver {driver}")),
     }
+}
+
+// ---------------------------------------------------------------------------------------------
+// Shell tier: the same oracle through `case` and `${v#p}`-family in the real shell
+
+#[derive(Clone, Debug, PartialEq, Eq, Hash, Serialize, Deserialize)]
+pub enum ShellKind {
+    /// case TEXT in P1) ;; P2) ;; *) ;; esac
+    Case,
+    Trim(TrimKind),
+}
+
+#[derive(Clone, Debug, PartialEq, Eq, Hash, Serialize, Deserialize)]
+pub struct ShellPatCase {
+    pub pats: Vec<Vec<PC>>,
+    pub text: String,
+    pub kind: ShellKind,
+    /// inside double quotes (`"${v#p}"`) or not
+    pub dq: bool,
+}
+
+fn safe_unquoted(c: char) -> bool {
+    c.is_ascii_alphanumeric() || "*?[]!^-:=.,+@%_/".contains(c)
+}
+
+/// Renders a pattern as shell text: quoted characters get a backslash (or single quotes).
+fn render_pattern(p: &[PC], alt_quote: bool) -> Option<String> {
+    let mut s = String::new();
+    for x in p {
+        if x.lit {
+            if x.c == '\n' {
+                s.push_str("'\n'");
+            } else if alt_quote && x.c != '\'' {
+                s.push('\'');
+                s.push(x.c);
+                s.push('\'');
+            } else {
+                s.push('\\');
+                s.push(x.c);
+            }
+        } else if safe_unquoted(x.c) {
+            s.push(x.c);
+        } else {
+            return None;
+        }
+    }
+    Some(s)
+}
+
+fn sh_quote(s: &str) -> String {
+    format!("'{}'", s.replace('\'', "'\\''"))
+}
+
+fn check_shell_pat(c: &ShellPatCase) -> Outcome {
+    let mut rendered = vec![];
+    for (i, p) in c.pats.iter().enumerate() {
+        // a pattern starting with an unquoted `!`/`^`... is fine; an empty pattern is rendered ''
+        match render_pattern(p, i % 2 == 1) {
+            Some(r) if !r.is_empty() => rendered.push(r),
+            Some(_) => rendered.push("''".to_string()),
+            None => return Outcome::skip("pattern needs an unquoted character the shell grammar reserves"),
+        }
+    }
+    let t: Vec<char> = c.text.chars().collect();
+    let mut parsed = vec![];
+    for p in &c.pats {
+        match m::parse(p) {
+            Ok(a) => parsed.push(a),
+            Err(w) => return Outcome::skip(w),
+        }
+    }
+    let (script, expect): (String, String) = match &c.kind {
+        ShellKind::Case => {
+            let mut s = format!("case {} in\n", sh_quote(&c.text));
+            let mut chosen = None;
+            for (i, r) in rendered.iter().enumerate() {
+                // a leading `(` avoids `esac`-like keywords being misread
+                s.push_str(&format!("({r}) probe item{i} ;;\n"));
+                if chosen.is_none() && m::full_match(&parsed[i], &t) {
+                    chosen = Some(i);
+                }
+            }
+            s.push_str("(*) probe none ;;\nesac\n");
+            (s, chosen.map_or("none".to_string(), |i| format!("item{i}")))
+        }
+        ShellKind::Trim(k) => {
+            let op = match k {
+                TrimKind::PrefixShortest => "#",
+                TrimKind::PrefixLongest => "##",
+                TrimKind::SuffixShortest => "%",
+                TrimKind::SuffixLongest => "%%",
+            };
+            // a pattern beginning with `#`/`%` would merge with the operator: quote that character
+            let guard = |r: &str| if r.starts_with('#') || r.starts_with('%') { format!("\\{r}") } else { r.to_string() };
+            let r = guard(&rendered[0]);
+            if r.contains('}') {
+                return Outcome::skip("closing brace in pattern");
+            }
+            let word = format!("${{v{op}{r}}}");
+            let s = if c.dq {
+                // inside double quotes the pattern's own quoting still applies, but single quotes are
+                // literal characters there: only backslash quoting is used (alt_quote off)
+                let r = match render_pattern(&c.pats[0], false) {
+                    Some(r) => guard(&r),
+                    None => return Outcome::skip("unrenderable"),
+                };
+                if r.contains('"') || r.contains('\'') || r.contains('`') || r.contains('$') {
+                    return Outcome::skip("quote character inside a double-quoted modifier word");
+                }
+                format!("v={}\nprobe \"${{v{op}{r}}}\"\n", sh_quote(&c.text))
+            } else {
+                format!("set -f\nIFS=\nv={}\nprobe {word}\n", sh_quote(&c.text))
+            };
+            (s, m::trim(&parsed[0], &t, *k))
+        }
+    };
+    let r = crate::vsys::run(&crate::vsys::Setup::script(&script));
+    if let Some(p) = &r.panic {
+        return Outcome::fail(format!("panic: {p}\nscript:\n{script}"));
+    }
+    let trace = r.main_trace();
+    let got: Option<String> = match (&c.kind, trace.first()) {
+        (_, None) => None,
+        (_, Some(t)) => Some(t.args.first().cloned().unwrap_or_default()),
+    };
+    // an unquoted empty result yields no field at all
+    let got_s = got.clone().unwrap_or_default();
+    if trace.len() != 1 && !(trace.is_empty() && r.status != 0) {
+        return Outcome::fail(format!("probe ran {} times; stderr {:?}\nscript:\n{script}", trace.len(), r.stderr));
+    }
+    if trace.is_empty() {
+        return Outcome::fail(format!("the shell rejected a well-defined pattern: status {} stderr {:?}\nscript:\n{script}", r.status, r.stderr));
+    }
+    if got_s != expect {
+        return Outcome::fail(format!("got {got_s:?}, POSIX pattern notation gives {expect:?}\nscript:\n{script}"));
+    }
+    Outcome::pass(parsed.iter().any(|a| m::has_special(a)))
+        .class(match c.kind { ShellKind::Case => "case", ShellKind::Trim(_) => "trim" })
+        .class_if(c.dq, "double-quoted")
+        .class_if(c.pats.iter().flatten().any(|p| p.lit), "quoted-pattern-char")
+}
+
+pub static SHELL: Driver<ShellPatCase> = Driver::new("C04", "shell", check_shell_pat);
+
+fn arb_shell_char() -> impl Strategy<Value = char> {
+    prop_oneof![
+        4 => prop::sample::select(vec!['a', 'b', 'c', 'x', 'A', '0', '9']),
+        4 => prop::sample::select(vec!['.', '-', '*', '?', '[', ']', '!', '^', ':', '=', ',', '+', '@', '%', '_']),
+        2 => prop::sample::select(vec!['\\', '|', '(', ')', '{', '$', '&', '~', '#', ' ', ';', '<', '>', '"', '\'', '\n', 'é']),
+    ]
+}
+
+fn arb_shell_case() -> impl Strategy<Value = ShellPatCase> {
+    let pc = (arb_shell_char(), prop::bool::weighted(0.25)).prop_map(|(c, lit)| PC { c, lit: lit || !safe_unquoted(c) });
+    let pat = prop_oneof![
+        3 => prop::collection::vec(pc, 0..6),
+        2 => prop::collection::vec(arb_fragment(), 1..4).prop_map(|f| {
+            f.into_iter().flatten().map(|p| PC { c: p.c, lit: p.lit || !safe_unquoted(p.c) }).collect::<Vec<PC>>()
+        }),
+    ];
+    (
+        prop::collection::vec(pat, 1..3),
+        prop::collection::vec(arb_shell_char(), 0..6),
+        prop_oneof![
+            2 => Just(ShellKind::Case),
+            1 => Just(ShellKind::Trim(TrimKind::PrefixShortest)),
+            1 => Just(ShellKind::Trim(TrimKind::PrefixLongest)),
+            1 => Just(ShellKind::Trim(TrimKind::SuffixShortest)),
+            1 => Just(ShellKind::Trim(TrimKind::SuffixLongest)),
+        ],
+        any::<bool>(),
+        any::<u16>(),
+    )
+        .prop_map(|(pats, mut text, kind, dq, seed)| {
+            // bias the subject towards members of the first pattern
+            let members: Vec<char> = pats[0].iter().map(|p| p.c).filter(|c| !matches!(c, '[' | ']' | '*' | '?')).collect();
+            if seed % 2 == 0 && !members.is_empty() {
+                let k = (seed as usize / 2 % 4) + 1;
+                text = (0..k).map(|i| members[(seed as usize / 11 + i * 3) % members.len()]).collect();
+            }
+            ShellPatCase { pats, text: text.into_iter().collect(), kind, dq }
+        })
+}
+
+pub fn run_shell(ctx: &Ctx, st: &mut Stats) {
+    let n = ctx.tier.pick(120_000, 6_000_000);
+    SHELL.run_random(ctx, st, n, arb_shell_case);
 }
